@@ -1198,7 +1198,7 @@ impl Set {
         match operator {
             SetOperator::Union => Integer::from_interval(
                 left_size_max.min(right_size_max),
-                left_size_max + right_size_max,
+                left_size_max.saturating_add(right_size_max),
             ),
             SetOperator::Except => Integer::from_interval(0, left_size_max),
             SetOperator::Intersect => Integer::from_interval(0, left_size_max.min(right_size_max)),
